@@ -103,6 +103,8 @@ def shape(case, obs, step):
     before = dict((k, v) for k, v in (case["init"] if step == 0 else obs[step - 1]["after"]))
     if op[0] in ("SetItem", "DelItem", "SetDefault", "SetDefault1", "Pop"):
         k = op[1]
+        if k >= 300:
+            return "key-unhashable"
         if k in before:
             return "key-present"
         vkk = vld(case["kk"], k)
@@ -177,6 +179,10 @@ def gen_case(rnd, ctx, maxlen):
             return rnd.choice(KEYS[:8])
         return rnd.choice(KEYS)
 
+    def single_key():
+        # single-key operations also get unhashable keys (TypeError before or after validation)
+        return 300 if rnd.random() < 0.06 else pick_key()
+
     def pick_val(k=None):
         r = rnd.random()
         if r < 0.15 and k is not None:
@@ -208,19 +214,19 @@ def gen_case(rnd, ctx, maxlen):
         k = rnd.choice(["SetItem"] * 3 + ["DelItem"] * 2 + ["Update"] * 3 + ["Ior"] * 2 + ["SetDefault"] * 3 +
                        ["SetDefault1", "Pop", "Pop", "PopD", "PopD", "PopItem", "Clear", "Ctor"])
         if k == "SetItem":
-            key = pick_key()
+            key = single_key()
             op = [k, key, pick_val(key)]
         elif k == "DelItem":
-            op = [k, pick_key()]
+            op = [k, single_key()]
         elif k in ("Update", "Ior"):
             op = [k, rnd.choice(["map", "pairs", "pairs"]), pick_pairs()]
         elif k == "Ctor":
             op = [k, rnd.choice(["map", "pairs"]) if target == "plain" else "map", pick_pairs()]
         elif k == "SetDefault":
-            key = pick_key()
+            key = single_key()
             op = [k, key, pick_val(key)]
         elif k == "SetDefault1":
-            op = [k, pick_key()]
+            op = [k, single_key()]
         elif k == "Pop":
             op = ["Pop", pick_key()]
         elif k == "PopD":
@@ -232,7 +238,7 @@ def gen_case(rnd, ctx, maxlen):
         # loose hint update through the mirror
         if op[0] in ("SetItem", "SetDefault"):
             a, b = vld(kk, op[1]), vld(vk, op[2])
-            if a is not None and b is not None and (op[0] == "SetItem" or op[1] not in cur):
+            if a is not None and a < 300 and b is not None and (op[0] == "SetItem" or op[1] not in cur):
                 cur[a] = b
         elif op[0] in ("Update", "Ior", "Ctor"):
             vps = [(vld(kk, a), vld(vk, b)) for a, b in op[2]]
@@ -284,11 +290,11 @@ def grid(ctx, stride, offset):
     """Every single operation from every small state shape: key absent / present / present after coercion /
     rejected, with accepting, rejecting and coercing validators on every target (enumerated, not drawn)."""
     states = [[], [[1, 10]], [[1, 10], [2, 11]], [[2, 11], [1, 10]], [[1, 110]]]
-    keys = [1, 2, 3, 101, 103, 200]
+    keys = [1, 2, 3, 101, 103, 200, 300]
     vals = [10, 12, 110, 200]
     ops = []
     for k in keys:
-        ops += [["DelItem", k], ["Pop", k], ["Pop", k, 12], ["SetDefault1", k]]
+        ops += [["DelItem", k], ["SetDefault1", k]] + ([["Pop", k], ["Pop", k, 12]] if k < 300 else [])
         for v in vals:
             ops += [["SetItem", k, v], ["SetDefault", k, v]]
     ops += [["PopItem"], ["Clear"]]
